@@ -74,6 +74,14 @@ CLAIMED = {
          "Exploration over histories (vec of 1-6 operations, shrunk as one value) of open / batch_open / open_combinations on one pre-seeded prover sponge, replayed by the verifier on an identically initialised sponge: every check must accept and both sponges must squeeze identical values after every prefix; transposed proofs and a different verifier pre-state must be rejected at the first affected check for non-constant polynomials. Catches the sub-agent change seeded/C11 (prover skipping one squeeze for constant degree-bounded non-hiding polynomials).",
          "Mutation rejection is not asserted for constant polynomials (property caveat) nor for code-based instances whose Fiat-Shamir positions collide with probability above 2^-40.",
          "DESIGN.md §4 C11"),
+ "C10": ("differential testing against independent reference verifiers over the single-fault neighbourhood of generated transcripts (property-based generation of transcript and replaced component)",
+         "Exploration: for each generated accepting transcript one verifier-visible component (commitment part, bound label, value, point coordinate, proof element, key element) is replaced by a random valid element of its type and the library's decision is compared with an independent implementation of the scheme's published relation using the harness's own challenge derivation (sponge replay, IPA random-oracle rounds, Fiat-Shamir column indices); the unmodified transcript must satisfy the reference; batch_check is compared with the conjunction over point labels. Catches the sub-agent change seeded/C10 and the reverted Merkle-boolean fix.",
+         "The reference verifiers encode the published relations as read from the module documentation and cited papers; they share ark-ec/ark-ff/ark-crypto-primitives primitives with the library.",
+         "DESIGN.md §4 C10"),
+ "C18": ("differential testing across configurations: digests of all outputs of fixed-seed generated scenarios under 7 rayon pool configurations and a second build without the parallel feature",
+         "Exploration: the same generated scenarios are executed by child processes under RAYON_NUM_THREADS in {1,2,3,8,16,16,16,16} and by a build of the harness against ark-poly-commit without `parallel`; SHA-256 digests over the serialization of every output must coincide; mismatches are reduced greedily to a replay naming both configurations. Catches the sub-agent change seeded/C18 (Hyrax blinders handed out by an atomic cursor) and the reverted F9 fix.",
+         "The scheduler is not controlled: a scheduling-dependent result is found only if it manifests in one of the runs.",
+         "DESIGN.md §4 C18"),
 }
 
 NOT_YET = "check not built yet in this round (planned, see DESIGN.md §4)"
